@@ -211,6 +211,28 @@ theorem print_plain_total (cfg : Layout.Cfg) (hc : CfgRepaired cfg) (po : PrintO
     ∃ lines, printPlainE cfg po s w = .ok lines :=
   printPlainE_total cfg hc po hhl s w
 
+/-- **text_measure_total.**  `Text.__rich_measure__` never reaches `max()` of an empty sequence: for every text — empty,
+made only of white space of ANY kind (NO-BREAK SPACE, IDEOGRAPHIC SPACE, U+001C..U+001F, U+2028, …), or not — and every
+width function, provided the blank-text guard (`if not text.strip()`) strips every character `str.split()` splits on.
+In rich both are Python's `str.isspace` class (`pyIsSpace`, translated from the running interpreter): the corollary. -/
+theorem text_measure_total (guard split : Char → Bool) (h : ∀ c, split c = true → guard c = true) (cw : Char → Nat)
+    (plain : List Char) : ∃ m, textRichMeasureE guard split cw plain = .ok m :=
+  textRichMeasureE_total guard split h cw plain
+
+theorem text_measure_total_rich (cw : Char → Nat) (plain : List Char) :
+    ∃ m, textRichMeasureE pyIsSpace pyIsSpace cw plain = .ok m :=
+  text_measure_total pyIsSpace pyIsSpace (fun _ h => h) cw plain
+
+/-- a guard that strips only `" \t\n"` while `split()` keeps Python's white space: a cell holding a NO-BREAK SPACE raises
+`ValueError` when it is measured (seeded change C14-f1) -/
+theorem narrow_guard_measure_raises :
+    textRichMeasureE asciiBlank pyIsSpace (fun _ => 1) [Char.ofNat 0xA0] = .error .valueError ∧
+    textRichMeasureE asciiBlank pyIsSpace (fun _ => 1) [Char.ofNat 0x1C, Char.ofNat 0x3000] = .error .valueError := by decide
+
+example : textRichMeasureE pyIsSpace pyIsSpace (fun _ => 1) [Char.ofNat 0xA0, Char.ofNat 0x3000] = .ok ⟨2, 2⟩ := by decide
+example : textRichMeasureE pyIsSpace pyIsSpace (fun _ => 1) ['a', 'b', ' ', 'c', '\n', 'd'] = .ok ⟨2, 4⟩ := by decide
+example : textRichMeasureE pyIsSpace pyIsSpace (fun _ => 1) [] = .ok ⟨0, 0⟩ := by decide
+
 /-- a console with every code variant repaired (what /repo contains); unit cell widths keep the examples small -/
 def exCfg : Layout.Cfg :=
   { cw := fun _ => 1, env := { consoleWidth := 10 },
